@@ -11,8 +11,10 @@ import (
 	"regexp"
 	"runtime/debug"
 	"strings"
+	"sync/atomic"
 	"testing"
 	"time"
+	"unsafe"
 
 	"github.com/megaease/easegress/pkg/context"
 	"github.com/megaease/easegress/pkg/context/contexttest"
@@ -117,6 +119,39 @@ func vfClass(text string) string {
 
 func vfKey2(kind, site, text string) string {
 	return fmt.Sprintf("kind=%s site=%s panic=%s", kind, site, vfClass(text))
+}
+
+// ------------------------------------------------------------------------------ resource hygiene
+
+// vfCloseQuietly closes something a case created on a path where the case is already decided
+// (failed Init / Inherit, abandoned case): nothing a case creates may outlive it - a Validator in
+// basicAuth FILE mode holds an inotify instance until it is closed, and the machine has 128 of
+// them for everybody. A panic of such a Close is recovered and counted, never reported here.
+func vfCloseQuietly(vf *vfCollector, what string, fn func()) {
+	if p, _, _ := vfRecover(fn); p {
+		vf.Class("close-panicked " + what)
+	}
+}
+
+// vfGlobalFilterPipelines returns the before / after pipelines a GlobalFilter holds.
+// GlobalFilter.Close() is empty in the code under test: the pipelines it created (and the filters
+// in them) are never closed by anybody, so the harness has to reach for them itself (unexported
+// atomic.Value fields, read through reflection; a renamed field just means nothing is returned).
+func vfGlobalFilterPipelines(gf *globalfilter.GlobalFilter) []*pipeline.Pipeline {
+	var out []*pipeline.Pipeline
+	defer func() { _ = recover() }()
+	v := reflect.ValueOf(gf).Elem()
+	for _, name := range []string{"beforePipeline", "afterPipeline"} {
+		f := v.FieldByName(name)
+		if !f.IsValid() || !f.CanAddr() || f.Type() != reflect.TypeOf(atomic.Value{}) {
+			continue
+		}
+		av := (*atomic.Value)(unsafe.Pointer(f.UnsafeAddr()))
+		if p, ok := av.Load().(*pipeline.Pipeline); ok && p != nil {
+			out = append(out, p)
+		}
+	}
+	return out
 }
 
 // ------------------------------------------------------------------------------ generators
@@ -741,12 +776,13 @@ func TestVerifC13Pipeline(t *testing.T) {
 		dk := "pipeline|" + strings.Join(info.Kinds, ",") + "|" + strings.Join(g.Present(), ",") + "|" + strings.Join(g.Bounds(), ",")
 
 		if pn, txt, site, fk := vfRecoverRoot(func() { p.Init(spec, vfMapper) }); pn {
+			vfCloseQuietly(vf, "Pipeline after a failed Init", func() { p.Close() }) // the filters created before the panic
 			vf.Case(len(g.present) > 0, "init|"+dk, nil)
 			r.fail("Pipeline", "Init", txt, site, fk, "", &info)
 			return
 		}
 		cur := p
-		defer func() { vfRecover(func() { cur.Close() }) }()
+		defer func() { vfCloseQuietly(vf, "Pipeline at the end of the case", func() { cur.Close() }) }()
 
 		nreq := 1 + vfUniform(rt, "nreq", 6)
 		handled := 0
@@ -820,6 +856,7 @@ func TestVerifC13Pipeline(t *testing.T) {
 				p2 := obj2.(*pipeline.Pipeline)
 				prev := cur
 				if pn, txt, site, fk := vfRecoverRoot(func() { p2.Inherit(spec2, prev, vfMapper) }); pn {
+					vfCloseQuietly(vf, "Pipeline after a failed Inherit", func() { p2.Close() })
 					r.fail("Pipeline", "Inherit", txt, site, fk, "", &info)
 					return
 				}
@@ -892,12 +929,26 @@ func TestVerifC13GlobalFilter(t *testing.T) {
 		}
 		gf := obj.(*globalfilter.GlobalFilter)
 		dk := "globalfilter|" + strings.Join(g.Present(), ",") + "|" + strings.Join(g.Bounds(), ",")
+		// GlobalFilter.Close() does not close the before / after pipelines: the harness does, for every
+		// generation the case created (a pipeline handed over by Inherit was closed by its successor
+		// already; closing is only repeated for a generation whose successor failed to take over)
+		closePipelines := func(x *globalfilter.GlobalFilter) {
+			ps := vfGlobalFilterPipelines(x)
+			for _, p := range ps {
+				p := p
+				vfCloseQuietly(vf, "GlobalFilter pipeline", func() { p.Close() })
+			}
+			if len(ps) > 0 {
+				vf.Class("globalfilter-pipelines-closed-by-harness")
+			}
+		}
 		if pn, txt, site, fk := vfRecoverRoot(func() { gf.Init(spec) }); pn {
+			closePipelines(gf)
 			vf.Case(len(g.present) > 0, "init|"+dk, nil)
 			r.fail("GlobalFilter", "Init", txt, site, fk, "", &info)
 			return
 		}
-		defer func() { vfRecover(func() { gf.Close() }) }()
+		defer func() { vfRecover(func() { gf.Close() }); closePipelines(gf) }()
 
 		// the pipeline being wrapped: a Mock that always answers
 		pspec, pobj, err := vfNewObject(env, "name: plmain\nkind: Pipeline\nfilters:\n- name: m\n  kind: Mock\n  rules:\n  - match: {}\n    code: 200\n    body: main\n")
@@ -937,6 +988,7 @@ func TestVerifC13GlobalFilter(t *testing.T) {
 				gf2 := obj2.(*globalfilter.GlobalFilter)
 				prev := gf
 				if pn, txt, site, fk := vfRecoverRoot(func() { gf2.Inherit(spec2, prev) }); pn {
+					closePipelines(gf2) // prev's pipelines are closed by the deferred call (gf is still prev)
 					r.fail("GlobalFilter", "Inherit", txt, site, fk, "", &info)
 					return
 				}
